@@ -32,7 +32,8 @@ TARGET_FIELDS = {
     ('NamedExpr', 'target'), ('Delete', 'targets'),
 }
 TARGET_KINDS = ['Name', 'Attribute', 'Subscript', 'Tuple(Name,Attribute)', 'Tuple(Starred,Name)',
-                'List(Name,Tuple(Name,Name))', 'Tuple(Name,Subscript)', 'Tuple(StarredTuple,Name)']
+                'List(Name,Tuple(Name,Name))', 'Tuple(Name,Subscript)', 'Tuple(StarredTuple,Name)',
+                'Tuple(Name,Starred)', 'Tuple(Name,Tuple(Name,Starred),Name)']
 ONLY_NAME_TARGET = {('NamedExpr', 'target')}
 SIMPLE_TARGET = {('AnnAssign', 'target'), ('AugAssign', 'target')}   # Name | Attribute | Subscript
 
@@ -314,6 +315,7 @@ class Extractor(object):
         it.method_natives[('SourceScope', 'find_id_loc')] = self.m_find_id_loc
         it.attr_hooks['extract_visitor'] = self.h_visitor_attr
         it.attr_hooks['Scope'] = self.h_scope_attr
+        it.membership_policy = 'single'
 
     def _validate_frozen_summaries(self):
         """The helpers summarised natively must still have the shape the summary assumes."""
@@ -334,8 +336,8 @@ class Extractor(object):
         v = repo.module_func(UTIL, 'visitor')
         if 'cls().process(*args, **kwargs)' not in unparse(v):
             raise AnalysisError('util.visitor changed beyond the frozen summary cls().process')
-        fb = repo.module_func(SCOPE, 'get_first_body_node_loc')
-        if 'np(n)' not in unparse(fb):
+        fb = repo.optional_helper(SCOPE, 'get_first_body_node_loc')
+        if fb is not None and 'np(n)' not in unparse(fb):
             raise AnalysisError('scope.get_first_body_node_loc changed beyond the frozen summary')
 
     def m_get_expr_end(self, args):
